@@ -116,6 +116,9 @@ def make(kind, precision, classes=None, extra=None):
         kw = {}
         if extra.get('mia_precision'):
             kw['precision'] = extra['mia_precision']
+        if extra.get('auto_edges'):
+            # bin edges taken from the first accumulated batch (only used where the twin receives the very same calls: C16)
+            return Plain(scared.MIADistinguisher(bins_number=extra.get('bins', 4), partitions=classes, **kw))
         return Plain(scared.MIADistinguisher(bin_edges=edges, partitions=classes, **kw))
     if kind == 'tbuild':
         return _mk_tbuild(classes, precision)
